@@ -45,7 +45,10 @@ RULE = (
     "Discrete, Dict; action kinds Box (asymmetric, symmetric, bounds at which float32 unscaling overshoots), Discrete, MultiDiscrete, MultiBinary; with/without "
     "VecNormalize (obs and/or reward), with/without gSDE (with/without squashed output, resampling every k steps); "
     "default (parameterless) or custom Linear+Tanh features extractor, shared or one differently initialised copy each "
-    "for actor and critic; gamma in {0.5,0.75,0.9,0.99,1}; 1-3 learn() calls of 1-3 rollouts each, with/without reset_num_timesteps. "
+    "for actor and critic; sub-environments returning a fresh info dict per step or (35%) ONE reused dict object for "
+    "their lifetime (a truncation followed by further steps is forced then; half of those under a vectorised environment "
+    "that writes TimeLimit.truncated only at episode ends, so stale flag and stale terminal observation reach non-terminal "
+    "steps); gamma in {0.5,0.75,0.9,0.99,1}; 1-3 learn() calls of 1-3 rollouts each, with/without reset_num_timesteps. "
     "non-trivial = the run contains a truncation-only episode end, a termination, and a terminated-and-truncated end; "
     "distinct = distinct canonical case"
 )
@@ -55,7 +58,8 @@ STREAMS = {
     "rows": "rollout buffer slots (obs tag, action, start exact; reward exact unless bootstrapped, then 1e-4; value 1e-4; "
             "log-prob exact) == model's rows",
     "env_actions": "actions received by env.step == model's clip (exact) / unscale (1e-5) / identity",
-    "vec": "dones / TimeLimit.truncated / terminal observation of every step == model's vecOut of the scripted outcome",
+    "vec": "dones / TimeLimit.truncated / terminal observation (incl. stale ones of a reused info dict) of every step == model's "
+           "vecOut (DummyVecEnv) or vecOutLazy (flag written at episode ends only) of the scripted outcome",
     "gae": "rollout_buffer.advantages / returns after the rollout == C05 GAE model on the model's rows, last values and "
            "last dones (1e-3)",
     "last": "values (1e-4) and dones handed to compute_returns_and_advantage, carried _last_obs / _last_episode_starts "
@@ -141,9 +145,9 @@ def c06_decode(obs, kind):
 class C06Env(ScriptedEnv):
     """ScriptedEnv (shared) with the observation re-encoded as bits; same tags, same script, same call log."""
 
-    def __init__(self, env_id=0, okind="fbits", act_kind="discrete", script=None):
+    def __init__(self, env_id=0, okind="fbits", act_kind="discrete", script=None, info_mode="fresh"):
         super().__init__(env_id=env_id, obs_kind="discrete", act_kind="box" if act_kind == "box_odd" else act_kind,
-                         script=script)
+                         script=script, info_mode=info_mode)
         self.okind = okind
         self.observation_space = c06_obs_space(okind)
         if act_kind == "box_odd":
@@ -222,6 +226,21 @@ def gen_case(rng, widen=False):
                 term, trunc = rng.weighted([((False, True), 3), ((True, False), 2), ((True, True), 1)])
                 sc.append([rng.choice([0.0, 1.0, -1.0, 0.5, 2.0]), term, trunc])
             scripts.append(sc)
+    info_mode = "reuse" if rng.chance(0.35) else "fresh"
+    if info_mode == "reuse":
+        # make sure a time-limit truncation (and in half of the cases also a plain termination later) is followed by
+        # further steps of the next episode inside the run
+        while sum(l["rollouts"] for l in learns) * n_steps < 4:
+            learns[-1]["rollouts"] += 1
+        e = rng.randint(0, n_envs - 1)
+        sc = [list(x) for x in scripts[e]]
+        while len(sc) < 4:
+            sc.append([rng.choice([0.0, 1.0, -1.0, 0.5]), False, False])
+        pos = rng.randint(0, 1)
+        sc[pos] = [sc[pos][0], False, True]
+        sc[pos + 1] = [sc[pos + 1][0], False, False]
+        sc[pos + 2] = [sc[pos + 2][0], rng.chance(0.5), False]
+        scripts[e] = sc
     return {
         "algo": algo, "n_envs": n_envs, "n_steps": n_steps, "obs_kind": obs_kind, "act_kind": act_kind,
         "sde": sde, "vecnorm": vecnorm, "gamma": gamma, "gae_lambda": rng.choice([0.95, 1.0, 0.5]),
@@ -229,6 +248,14 @@ def gen_case(rng, widen=False):
         # features extractor WITH parameters (default: parameterless Flatten / CombinedExtractor), shared between actor
         # and critic or one differently initialised copy each
         "fe": fe,
+        # "reuse": every sub-environment returns ONE info dict object for its whole lifetime, so keys the vectorised
+        # environment wrote into it (terminal_observation, ...) are still there on later, non-terminal steps
+        "info_mode": info_mode,
+        # "lazy": a vectorised environment that writes TimeLimit.truncated only when an episode ends (a thin wrapper
+        # right above DummyVecEnv restores the last episode-end value on the other steps): together with a reused info
+        # dict, a stale TimeLimit.truncated=True AND a stale terminal_observation reach collect_rollouts on
+        # non-terminal steps -- only `dones` tells that no episode ended
+        "vec": "lazy" if (info_mode == "reuse" and rng.chance(0.5)) else "dummy",
     }
 
 
@@ -264,6 +291,15 @@ def shrink_candidates(case):
             c = dict(case)
             c[key] = None
             yield c
+    if case.get("vec", "dummy") != "dummy":
+        c = dict(case)
+        c["vec"] = "dummy"
+        yield c
+    if case.get("info_mode", "fresh") != "fresh":
+        c = dict(case)
+        c["info_mode"] = "fresh"
+        c["vec"] = "dummy"
+        yield c
     if case["obs_kind"] != "fbits":
         c = dict(case)
         c["obs_kind"] = "fbits"
@@ -322,16 +358,38 @@ def run_case(case):
     warnings.filterwarnings("ignore")
     n, T = case["n_envs"], case["n_steps"]
     okind, akind = case["obs_kind"], case["act_kind"]
-    fns = [EnvMaker(env_id=e, okind=okind, act_kind=akind, script=case["scripts"][e]) for e in range(n)]
+    fns = [EnvMaker(env_id=e, okind=okind, act_kind=akind, script=case["scripts"][e],
+                    info_mode=case.get("info_mode", "fresh")) for e in range(n)]
     base = DummyVecEnv(fns)
     venv = base
+    if case.get("vec", "dummy") == "lazy":
+        class LazyFlag(VecEnvWrapper):
+            def __init__(self, venv):
+                super().__init__(venv)
+                self.sticky = [None] * venv.num_envs
+
+            def reset(self):
+                return self.venv.reset()
+
+            def step_wait(self):
+                obs, rew, dones, infos = self.venv.step_wait()
+                for e, info in enumerate(infos):
+                    if dones[e]:
+                        self.sticky[e] = bool(info.get("TimeLimit.truncated", False))
+                    elif self.sticky[e] is None:
+                        info.pop("TimeLimit.truncated", None)
+                    else:
+                        info["TimeLimit.truncated"] = self.sticky[e]
+                return obs, rew, dones, infos
+
+        venv = LazyFlag(base)
     vn = None
     if case["vecnorm"] is not None:
         v = case["vecnorm"]
         kw = {}
         if okind == "dict" and v["norm_obs"]:
             kw["norm_obs_keys"] = ["vec"]
-        vn = VecNormalize(base, norm_obs=v["norm_obs"], norm_reward=v["norm_reward"], clip_obs=v["clip_obs"],
+        vn = VecNormalize(venv, norm_obs=v["norm_obs"], norm_reward=v["norm_reward"], clip_obs=v["clip_obs"],
                           gamma=v["gamma"], **kw)
         venv = vn
 
@@ -559,6 +617,9 @@ def ground_truth(case, r):
     logs = [parse_log(l) for l in r["logs"]]
     ptr = [0] * n
     tags, truth = {}, {}
+    reuse = case.get("info_mode", "fresh") == "reuse"
+    stale_term = [None] * n   # terminal_observation still in the sub-environment's reused info dict
+    stale_tl = [False] * n    # TimeLimit.truncated as written at the last episode end
     for i, ev in enumerate(r["events"]):
         tags[i] = [None] * n
         if ev["k"] == "reset":
@@ -580,6 +641,9 @@ def ground_truth(case, r):
                         raise ValueError(f"event {i}: env {e} ended an episode but was not reset")
                     st["reset_tag"] = logs[e][ptr[e]][1]
                     ptr[e] += 1
+                st["stale_term"], st["stale_tl"] = stale_term[e], stale_tl[e]
+                if reuse and (st["term"] or st["trunc"]):
+                    stale_term[e], stale_tl[e] = st["tag"], bool(st["trunc"] and not st["term"])
                 truth[i][e] = st
                 tags[i][e] = st["reset_tag"] if st["reset_tag"] is not None else st["tag"]
     for e in range(n):
@@ -776,6 +840,7 @@ def build_ops(case, r, tags, truth):
     events = r["events"]
     ops, impl = [], []
     ops.append({"op": "new", "n": n, "gamma": fr(r["gamma"]), "lam": fr(case["gae_lambda"]), "is_box": r["is_box"], "squash": r["squash"],
+                "lazy_vec": case.get("vec", "dummy") == "lazy",
                 "low": [fr(x) for x in r["low"].reshape(-1)] if r["is_box"] else [],
                 "high": [fr(x) for x in r["high"].reshape(-1)] if r["is_box"] else []})
     kind = "ident" if not r["is_box"] else ("unscale" if r["squash"] else "clip")
@@ -820,7 +885,7 @@ def build_ops(case, r, tags, truth):
                     table[tags[i][e]] = fr(ro["pv"][i][e])
                 if events[i]["k"] == "step" and i >= ro["ev0"]:
                     for e in range(n):
-                        if (i, e) in ro["pv"]:
+                        if (i, e) in ro["pv"] and (truth[i][e]["term"] or truth[i][e]["trunc"]):
                             table[truth[i][e]["tag"]] = fr(ro["pv"][(i, e)])
             steps, rows, eacts, vec = [], [], [], []
             for t in range(T):
@@ -830,7 +895,9 @@ def build_ops(case, r, tags, truth):
                     "samples": [{"a": [fr(x) for x in np.asarray(f["a"][e]).reshape(-1)],
                                  "logp": fr(np.asarray(f["lp"]).reshape(-1)[e])} for e in range(n)],
                     "raw": [{"obs": truth[i][e]["tag"], "r": fr(ev["rew"][e]), "term": truth[i][e]["term"],
-                             "trunc": truth[i][e]["trunc"], "reset": truth[i][e]["reset_tag"] or 0} for e in range(n)],
+                             "trunc": truth[i][e]["trunc"], "reset": truth[i][e]["reset_tag"] or 0,
+                             "stale_term": truth[i][e]["stale_term"], "stale_tl": truth[i][e]["stale_tl"]}
+                            for e in range(n)],
                 })
                 rows.append([{
                     "obs": tag_of(_slice(_slice(buf["observations"], t), e), tags[i - 1][e]),
@@ -846,7 +913,7 @@ def build_ops(case, r, tags, truth):
                     tobs = ev["term"][e]
                     if tobs is None:
                         tt = None
-                    elif r["norm_obs"]:
+                    elif r["norm_obs"] and ev["dones"][e]:
                         tt = truth[i][e]["tag"]  # normalised terminal observations cannot be decoded: presence only
                     else:
                         tt = c06_decode(tobs, case["obs_kind"])
@@ -973,6 +1040,7 @@ def check_cases(ctx, cases):
                                 (("obs" if case["vecnorm"]["norm_obs"] else "") +
                                  ("+rew" if case["vecnorm"]["norm_reward"] else "")) or "wrapper-only"))
         rep.count("sde:" + ("none" if case["sde"] is None else ("squash" if case["sde"]["squash"] else "plain")))
+        rep.count("info_mode:" + case.get("info_mode", "fresh") + "/vec:" + case.get("vec", "dummy"))
         rep.count("features_extractor:" + ("default" if case.get("fe") is None else
                                            ("custom-shared" if case["fe"]["share"] else "custom-separate")))
         if r is not None and r.get("fe_distinct") is False:
@@ -991,6 +1059,20 @@ def check_cases(ctx, cases):
         ends = classify(case, r, truth)
         for x in sorted(ends):
             rep.count("episode_end:" + x)
+        if case.get("info_mode") == "reuse":
+            # non-terminal steps taken while the reused info dict still carries a terminal_observation of an
+            # earlier, time-limit truncated episode
+            seen = [False] * case["n_envs"]
+            stale = 0
+            for i in sorted(truth):
+                for e, st in enumerate(truth[i]):
+                    if seen[e] and not (st["term"] or st["trunc"]):
+                        stale += 1
+                    if st["trunc"] and not st["term"]:
+                        seen[e] = True
+            rep.count("reuse:nonterminal_steps_after_a_truncation", stale)
+            if stale:
+                rep.count("reuse:cases_with_steps_after_a_truncation")
         n_boot = sum(1 for row in truth.values() for st in row if st["trunc"] and not st["term"])
         rep.count("bootstrapped_steps", n_boot)
         rep.count("env_steps", sum(len(row) for row in truth.values()))
